@@ -36,12 +36,14 @@ def classify(st: dict[str, Any]) -> str:
     return "warm-differs:missing=" + ",".join(_codes(miss)) + ":extra=" + ",".join(_codes(extra))
 
 
-def gen(ctx: common.Ctx, n_hist: int, steps: tuple[int, int], all_configs: bool) -> Iterator[dict[str, Any]]:
+def gen(ctx: common.Ctx, n_hist: int, steps: tuple[int, int], all_configs: bool, explore: bool = False) -> Iterator[dict[str, Any]]:
+    """core (explore=False): seed-independent histories over all edit operators; exploration: VERIF_SEED-dependent histories."""
     cfgs = list(CONFIGS)
+    tag = ("C02x", ctx.seed) if explore else ("C02", "core")
     for k in range(n_hist):
-        r = common.rng_for("C02", "h", k)
+        r = common.rng_for(*tag, "h", k)
         n = r.randint(*steps)
-        h = histgen.history(("C02", ctx.seed, k), n_steps=n, n_modules=r.randint(3, 8))
+        h = histgen.history((*tag, k), n_steps=n, n_modules=r.randint(3, 8))
         flags: list[str] = []
         if r.random() < 0.3:
             flags = r.choice([["--strict"], ["--warn-unreachable"], ["--disallow-any-generics"], ["--no-implicit-reexport"],
@@ -52,17 +54,18 @@ def gen(ctx: common.Ctx, n_hist: int, steps: tuple[int, int], all_configs: bool)
             yield {"fn": "vlib.tasks.incr:run_history",
                    "args": {"versions": h["versions"], "flags": flags, "targets": targets, "config": cfg, "skip_runs": skip,
                             "true_cold_steps": [i for i in range(n) if ctx.tier == "thorough" and (i + k) % 10 == 0]},
-                   "_k": k, "_ops": h["ops"], "_cfg": cfg, "_skip": skip}
+                   "_k": ("x" if explore else "core") + str(k), "_ops": h["ops"], "_cfg": cfg, "_skip": skip}
 
 
 def gen_corpus(ctx: common.Ctx, n: int) -> Iterator[dict[str, Any]]:
     from checks.c20 import clean_flags
     cases = [c for c in corpus.load(["check-incremental.test", "fine-grained*.test"])
              if c.steps and not corpus.uses_fixture_only_features(c) and not c.cmd]
-    rng = common.rng_for("C02", "corpus")
+    import random
+    rng = random.Random("C02-core-corpus")
     rng.shuffle(cases)
     for k, c in enumerate(cases[:n]):
-        r = common.rng_for("C02", "c", c.id)
+        r = random.Random("C02-core-" + c.id)
         vers = [c.files_at(s) for s in range(1, c.nsteps() + 1)]
         seq = list(range(len(vers))) + [r.randrange(len(vers)) for _ in range(r.randint(1, 3))]
         versions = [vers[i] for i in seq]
@@ -93,7 +96,8 @@ def run(ctx: common.Ctx) -> None:
     with common.workdir("C02") as wd:
         env = common.base_env(VERIF_POOL_ROOT=wd)
         with Pool(env=env) as pool:
-            tasks = itertools.chain(gen(ctx, n_hist, steps, all_configs=not quick), gen_corpus(ctx, n_corpus))
+            tasks = itertools.chain(gen(ctx, n_hist - n_hist // 3, steps, all_configs=not quick), gen_corpus(ctx, n_corpus),
+                                    gen(ctx, n_hist // 3, steps, all_configs=False, explore=True))
             for t, r in pool.imap(tasks, timeout=900):
                 if not r.get("ok"):
                     ctx.inconc("runner:" + ("timeout" if r.get("timeout") else "died" if r.get("died") else str(r.get("exc"))[:60]))
@@ -139,6 +143,6 @@ def run(ctx: common.Ctx) -> None:
                         key = histgen.op_class(ops) + "|" + key
                     ctx.violation(key, f"warm run differs from cold run at step {st['i']} (ops {ops}, config {t['_cfg']})",
                                   {"task": t, "step": st["i"], "warm": st["warm"], "cold": st["cold"], "diffs": st.get("diffs"),
-                                   "fresh": st["fresh"], "stale": st["stale"]})
+                                   "fresh": st["fresh"], "stale": st["stale"]}, case=f"{t['_k']}@{st['i']}:{t['_cfg']}")
                     break
     ctx.extra["m2_fresh_modules_checked"] = m2
